@@ -96,6 +96,7 @@ func (e *Engine) opBatch(c *cursor) *Violation {
 		}
 	}
 	why := ""
+	badRel := ""
 	noEffect := false
 	ill := e.illegalIntent(c)
 	switch op.Variant {
@@ -116,6 +117,28 @@ func (e *Engine) opBatch(c *cursor) *Violation {
 		} else {
 			op.Rel = r
 			op.Target = e.pickTarget(c, nil, ill)
+			if ill && c.n(3) == 0 {
+				// a relation argument that no resulting entity carries / a plain type that every result carries:
+				// refused at the first table, before anything has moved
+				var any uint32
+				for _, me := range matched {
+					any |= (me.Cs &^ setOf(rem)) | setOf(add)
+				}
+				var missing, plainIn []int
+				for _, t := range e.regTypes() {
+					if any&(1<<uint(t)) == 0 {
+						missing = append(missing, t)
+					} else if resAll&(1<<uint(t)) != 0 && e.M.RelMask&(1<<uint(t)) == 0 {
+						plainIn = append(plainIn, t)
+					}
+				}
+				k := c.n(1 << 16)
+				if len(missing) > 0 && (k%2 == 0 || len(plainIn) == 0) {
+					op.Rel, badRel = missing[(k/2)%len(missing)], "relation-missing"
+				} else if len(plainIn) > 0 {
+					op.Rel, badRel = plainIn[(k/2)%len(plainIn)], "not-a-relation"
+				}
+			}
 		}
 	case "Batch.SetRelation", "Relations.SetBatch":
 		r := e.M.relOf(all & e.M.RelMask)
@@ -146,6 +169,9 @@ func (e *Engine) opBatch(c *cursor) *Violation {
 			e.St.Skipped++
 			return nil
 		}
+	}
+	if badRel != "" && why == "" {
+		why = badRel
 	}
 	if op.HasTgt && !e.M.TargetOK(op.Target) {
 		if len(matched) == 0 && op.Variant == "Relations.ExchangeBatch" {
